@@ -235,17 +235,22 @@ impl Sim {
     /// deposit / mint / withdraw / redeem; `a = [receiver, from|owner, operator]`.
     /// The previews are queried (and traced) immediately before the call.
     fn vault_op(&self, t: &mut Trace, kind: &str, x: i128, a: [usize; 3], auth: &[usize], sub: bool) -> Option<i128> {
+        self.vault_op_adj(t, kind, x, a, auth, sub, 0)
+    }
+    /// `adj != 0`: the signers authorize the nested asset-token movement for an amount that is off by `adj` from the
+    /// previewed one (`sub=2` on the op line: as far as the real code is concerned the nested call is NOT authorized)
+    fn vault_op_adj(&self, t: &mut Trace, kind: &str, x: i128, a: [usize; 3], auth: &[usize], sub: bool, adj: i128) -> Option<i128> {
         self.query_op(t, x, a[1]);
         let e = &self.e;
         let ad = |i: usize| -> Val { self.u.a(i).into_val(e) };
         let argv = args(e, [v(e, x), ad(a[0]), ad(a[1]), ad(a[2])]);
-        t.op(&format!("vault {} x={} a={} auth={} sub={}", kind, x, join(&a), join(auth), if sub { 1 } else { 0 }));
+        t.op(&format!("vault {} x={} a={} auth={} sub={}", kind, x, join(&a), join(auth), if adj != 0 { 2 } else if sub { 1 } else { 0 }));
         // the nested asset-token invocation the signers authorize along with the root
         let assets = match kind {
             "deposit" => x,
             "mint" => self.q1("preview_mint", x).unwrap_or(0),
             _ => 0,
-        };
+        } + adj;
         let to: MuxedAddress = self.v().clone().into();
         let (sfn, sargs): (&str, SVec<Val>) = if a[2] == a[1] {
             ("transfer", args(e, [ad(a[1]), v(e, to), v(e, assets)]))
@@ -399,6 +404,36 @@ fn directed(t: &mut Trace) {
     s.vault_op(t, "withdraw", mw + 1, [1, 1, 1], &[1], true);
     s.vault_op(t, "withdraw", mw, [1, 1, 1], &[1], true);
     s.vault_op(t, "redeem", 1, [1, 1, 1], &[1], true);
+
+    // 1b. a skewed rate: every mint / withdraw price is inexact (ceil != floor), also below one asset unit
+    for offset in [0u32, 3] {
+        t.seq(&format!("directed inexact prices at a skewed rate offset={} min_temp=1 start=100", offset));
+        let mut s = Sim::new(1, 100);
+        s.construct(t, offset);
+        s.token_op(t, "a_mint", 1_000_000, &[0], 0, &[]);
+        s.token_op(t, "a_mint", 1_000_000, &[1], 0, &[]);
+        s.vault_op(t, "deposit", 1000, [0, 0, 0], &[0], true);
+        s.token_op(t, "a_transfer", 333, &[0, VAULT], 0, &[0]); // donation
+        s.query_op(t, 7, 1);
+        s.vault_op(t, "mint", 7, [1, 1, 1], &[1], true);
+        // the payer authorizes one unit LESS / MORE than the previewed price: the real mint asks for the preview
+        s.vault_op_adj(t, "mint", 7, [1, 1, 1], &[1], true, -1);
+        s.vault_op_adj(t, "mint", 7, [1, 1, 1], &[1], true, 1);
+        s.vault_op_adj(t, "deposit", 13, [1, 1, 1], &[1], true, -1);
+        s.query_op(t, 999, 1);
+        s.vault_op(t, "mint", 999, [1, 1, 1], &[1], true);
+        s.vault_op_adj(t, "mint", 999, [1, 1, 1], &[1], true, -1);
+        s.query_op(t, 1, 1);
+        s.vault_op(t, "mint", 1, [1, 1, 1], &[1], true);
+        s.query_op(t, 10, 1);
+        s.vault_op(t, "withdraw", 10, [1, 1, 1], &[1], true);
+        s.query_op(t, 1, 1);
+        s.vault_op(t, "withdraw", 1, [1, 1, 1], &[1], true);
+        s.query_op(t, 5, 1);
+        s.vault_op(t, "redeem", 5, [1, 1, 1], &[1], true);
+        s.query_op(t, 13, 1);
+        s.vault_op(t, "deposit", 13, [1, 1, 1], &[1], true);
+    }
 
     // 2. offset 10, phantom overflow: the intermediate product exceeds i128, the result fits
     t.seq("directed phantom overflow offset=10 min_temp=1 start=100");
